@@ -191,38 +191,83 @@ def rule_exempt(ctx: Ctx, repo: Repo) -> None:
               construct=f"confined modules {kept}; must stay at runtime: {sorted(need_out)}")
     ctx.check(set(kept) >= {"pkg.shapes", "typing_extra", "collections"} and len(kept) == len(set(kept)), "R-C16.3", fi.fq,
               "every other newly introduced import is confined (exact module-name match, no prefix match)", construct=f"{kept}")
-    # the filtered list is what the remover and the block builder use
+    # transform_module_impl interpreted with its helpers inlined, observed at the libcst boundary: TYPE_CHECKING import
+    # first; with a move list: the imports removed from the tree and the imports put into the block are the SAME list,
+    # the one without the runtime modules; without a move list nothing else happens
     tm = repo.fn(TCI, "MoveImportsToTypeCheckingBlockVisitor.transform_module_impl")
     ctx.functions.add(tm.fq)
+    moved_in = [item("pkg.shapes", "Circle"), item("typing", "List"), item("mypy_extensions", "TypedDict"), item("os.path", None)]
+    want_list = [i_ for i_ in moved_in if i_.fields["module_name"].v not in need_out]
     for with_items in (True, False):
-        seq: List[str] = []
-        def hook(call, fname, fval, args, kwargs, st, _s=seq):
-            m = call.func.attr if isinstance(call.func, ast.Attribute) else None
-            if m in ("_add_type_checking_import", "_remove_typing_module", "_remove_imports", "_add_if_type_checking_block") and isinstance(fval, S) and fval.name == "self":
-                _s.append(m)
-                if m == "_remove_typing_module":
-                    return R("filtered", of=st.freeze(args[0]))
-                return R("tree", by=K(m), of=st.freeze(args[0]) if args else K(None))
-            if m == "get" and isinstance(fval, S) and "scratch" in fval.name:
-                return K((K((item("pkg.shapes", "Circle"),)),)) if with_items else K(None)
+        eff: List[Tuple[Any, ...]] = []
+
+        def cur_items(st: State) -> Any:
+            for e in reversed(st.effects):
+                if e[0] == "setattr" and e[2] == "import_items_to_be_moved":
+                    return st.freeze(e[3])
             return None
-        sc = CliScenario(repo, TCI, "MoveImportsToTypeCheckingBlockVisitor.transform_module_impl", hook=hook, inline_all=False)
-        attrs: Dict[str, V] = {}
+
+        def as_list(v: Any) -> Any:
+            if isinstance(v, R) and v.kind == "list":
+                return list(v.fields["items"])
+            if isinstance(v, K) and isinstance(v.v, tuple):
+                return list(v.v)
+            return v
+
+        def hook(call, fname, fval, args, kwargs, st, _e=eff):
+            m = call.func.attr if isinstance(call.func, ast.Attribute) else None
+            d = fname or ""
+            if d == "CodemodContext":
+                return R("context", n=K(len(_e)))
+            if d.endswith("add_needed_import"):
+                _e.append(("need", tuple(a.v for a in args[1:] if isinstance(a, K))))
+                return K(None)
+            if d == "AddImportsVisitor":
+                return R("visitor", what=K("add-imports"))
+            if m == "transform_module" and isinstance(fval, R) and fval.kind == "visitor":
+                _e.append(("transform", fval.fields["what"].v))
+                return R("tree", by=fval.fields["what"], of=st.freeze(args[0]))
+            if d == "RemoveImportsTransformer":
+                return R("remover", items=st.freeze(args[0]) if args else K(None))
+            if m == "visit" and args and isinstance(args[0], R) and args[0].kind == "remover":
+                _e.append(("remove", as_list(args[0].fields["items"])))
+                return R("tree", by=K("remover"), of=st.freeze(fval))
+            if m == "_add_if_type_checking_block" and isinstance(fval, S) and fval.name == "self":
+                _e.append(("block", as_list(cur_items(st))))
+                return R("tree", by=K("block"), of=st.freeze(args[0]) if args else K(None))
+            if m == "get" and isinstance(fval, S) and "scratch" in fval.name:
+                return K((K(tuple(moved_in)),)) if with_items else K(None)
+            return None
+
+        sc = CliScenario(repo, TCI, "MoveImportsToTypeCheckingBlockVisitor.transform_module_impl", hook=hook, inline_all=True)
         base = sc.on_attr
-        def on_attr(obj, attr, nd, st, _b=base, _a=attrs):
-            if isinstance(obj, S) and obj.name == "self" and attr in _a:
-                return _a[attr]
+
+        def on_attr(obj, attr, nd, st, _b=base):
+            if isinstance(obj, S) and obj.name == "self" and attr == "import_items_to_be_moved":
+                v = None
+                for e in reversed(st.effects):
+                    if e[0] == "setattr" and e[2] == "import_items_to_be_moved":
+                        v = e[3]
+                        break
+                if v is not None:
+                    return v
             return _b(obj, attr, nd, st)
         sc.ri.on_attr = sc.ri.interp.on_attr = on_attr  # type: ignore
         o = sc.run({"self": S("self"), tm.positional_params()[1]: R("tree", by=K("input"), of=K(None))})
-        sets = [e for e in o.effects if e[0] == "setattr" and e[2] == "import_items_to_be_moved"]
-        want = ["_add_type_checking_import", "_remove_typing_module", "_remove_imports", "_add_if_type_checking_block"] if with_items else ["_add_type_checking_import"]
-        ctx.check(seq == want, "R-C16.4", tm.fq,
-                  "TYPE_CHECKING is imported first; with a move list: runtime imports are dropped from it, the moved imports are removed, then the block is added",
-                  construct=f"move list present={with_items}: {seq}")
+        kinds = [e[0] for e in eff]
+        first_ok = kinds[:2] == ["need", "transform"] and eff[0][1] == ("typing", "TYPE_CHECKING")
         if with_items:
-            ctx.check(bool(sets) and isinstance(sets[-1][3], R) and sets[-1][3].kind == "filtered", "R-C16.3", tm.fq,
-                      "the list used for removal and for the block is the one without the runtime imports", construct=f"{[str(s[3])[:60] for s in sets]}")
+            ok = first_ok and kinds[2:] == ["remove", "block"]
+            ctx.check(ok, "R-C16.4", tm.fq,
+                      "TYPE_CHECKING is imported first; with a move list: runtime imports are dropped from it, the moved imports are removed, then the block is added",
+                      construct=f"move list present: {kinds}")
+            rem = next((e[1] for e in eff if e[0] == "remove"), None)
+            blk = next((e[1] for e in eff if e[0] == "block"), None)
+            ctx.check(rem == want_list and blk == want_list, "R-C16.3", tm.fq,
+                      "the list used for removal and for the block is the one without the runtime imports",
+                      construct=f"removed {[_it(x) for x in rem] if isinstance(rem, list) else rem}; block {[_it(x) for x in blk] if isinstance(blk, list) else blk}")
+        else:
+            ctx.check(first_ok and kinds[2:] == [], "R-C16.4", tm.fq, "without a move list only the TYPE_CHECKING import is added", construct=f"{kinds}")
 
 
 def rule_split(ctx: Ctx, repo: Repo) -> None:
@@ -252,6 +297,8 @@ def rule_split(ctx: Ctx, repo: Repo) -> None:
             return None
         sc = CliScenario(repo, TCI, "MoveImportsToTypeCheckingBlockVisitor._split_module", hook=hook)
         k, res = sc.result({"self": S("self"), fi.positional_params()[1]: R("module", body=K(tuple(body)))})
+        if isinstance(res, R) and res.kind == "nt":
+            res = K(tuple(res.fields[n_] for n_ in res.fields["__fields__"].v))  # a two-field NamedTuple instead of a pair
         ok = k == "return" and isinstance(res, K) and isinstance(res.v, tuple) and len(res.v) == 2
         if ok:
             a, b = res.v
